@@ -33,7 +33,7 @@ func ledgerWorkload(c *fw.Ctx, strata []stratum, total int, mon func(e *exec, st
 		if !c.Want(idx+i, id) {
 			return
 		}
-		cs := genCase(c.Rng(id), st.cfg)
+		cs := genCaseM(c.Rng(id), st.cfg)
 		e, ok := run(c, cs)
 		if !ok {
 			return
